@@ -58,9 +58,18 @@ Section NM.
 
   Definition replace_last (l : list (vec * E)) (p : vec * E) : list (vec * E) := removelast l ++ [p].
 
+  (* numpy.argsort always answers with a sorting permutation; for any other recorded answer the model falls back to its own
+     stable insertion sort, so that the step is total *)
+  Fixpoint insert_e (a : vec * E) (l : list (vec * E)) : list (vec * E) :=
+    match l with
+    | [] => [a]
+    | b :: r => if ltb N (snd b) (snd a) then b :: insert_e a r else a :: l
+    end.
+  Definition isort (l : list (vec * E)) : list (vec * E) := fold_right insert_e [] l.
+
   (* sort, then constrain vertex 0 (the point whose energy is stored), then log it *)
   Definition finish (p : list nat) (l : list (vec * E)) : prog (nm * list (vec * E)) :=
-    let sl := if valid_perm p l then apply_perm p l else [] in
+    let sl := if valid_perm p l then apply_perm p l else isort l in
     match sl with
     | [] => Ret ({| sim := []; fsim := [] |}, [])
     | (x0, f0) :: r =>
